@@ -3,6 +3,7 @@ import Pk.Inst
 import Pk.Lift
 import Pk.Predict
 import Pk.Score
+import Pk.Config
 /-! Line-protocol driver for the Mathlib-free model: one request per line on stdin, one reply per
 line on stdout.  The harness (`/verif/harness`) sends the same cases to the real pykoop and diffs. -/
 open Pk
@@ -184,6 +185,47 @@ def cmdScorer : P String := do
     let p : Pipe Rat Kind := ⟨s, (nx, nu), Ki.map (·.map fun (v : Int) => (v : Rat))⟩
     pure (showScore (scorer (rowFn ratOps) p multi relift m es ns g X))
 
+def pOptBool : P (Option Bool) := do
+  let t ← tok
+  match t with
+  | "n" => pure none
+  | "1" => pure (some true)
+  | "0" => pure (some false)
+  | _ => throw s!"0/1/n expected: {t}"
+
+/-- `config <k> (<thread> <g | s v | e v | x>)*` : run a schedule on the config machine -/
+def cmdConfig : P String := do
+  let k ← pNat
+  let sched ← pMany k (do
+    let t ← pNat
+    let a ← tok
+    match a with
+    | "g" => pure (t, Config.Atom.get)
+    | "s" => do let v ← pOptBool; pure (t, Config.Atom.set v)
+    | "e" => do let v ← pOptBool; pure (t, Config.Atom.enter v)
+    | "x" => pure (t, Config.Atom.exit)
+    | _ => throw s!"atom expected: {a}")
+  let (_, log) := Config.runSched sched (fun _ => {})
+  pure ("ok " ++ " ".intercalate (log.map fun (t, b) => s!"{t}:{if b then 1 else 0}"))
+
+partial def pProg : P Config.Prog := do
+  let t ← tok
+  match t with
+  | "k" => pure .skip
+  | "g" => do let k ← pProg; pure (.get k)
+  | "s" => do let v ← pOptBool; let k ← pProg; pure (.set v k)
+  | "r" => pure .raise
+  | "c" => do let v ← pOptBool; let b ← pProg; let k ← pProg; pure (.ctx v b k)
+  | _ => throw s!"prog expected: {t}"
+
+/-- `cprog <start 0|1> <prog>` : run a structured program on one thread -/
+def cmdCProg : P String := do
+  let c ← pBool
+  let p ← pProg
+  let r := Config.run p c
+  pure (s!"ok {if r.cur then 1 else 0} {if r.raised then 1 else 0} " ++
+    " ".intercalate (r.outs.map fun b => if b then "1" else "0"))
+
 def intCells : Cells Int := ⟨0, Int.toNat, Int.ofNat⟩
 
 def pRaw : P (Raw Int) := do
@@ -239,6 +281,8 @@ def dispatch : P String := do
   | "regargs" => cmdRegArgs
   | "predict" => cmdPredict
   | "traj" => cmdTraj
+  | "config" => cmdConfig
+  | "cprog" => cmdCProg
   | "weights" => cmdWeights
   | "score" => cmdScore
   | "scorer" => cmdScorer
